@@ -270,6 +270,15 @@ int main(void)
 			snprintf(ibuf, sizeof(ibuf), "ret=%zd waiting=%zu", r, xs->waiting());
 			result(r < 0 ? "refused" : "ok", ibuf);
 		}
+		else if (!strcmp(op, "sync1") && drv_nw == 3) {
+			/* exactly one sync() call after the peer's frames have been written */
+			int e = peer_send(drv_w[2], xs->_idlen);
+			if (e == -1) { puts("bad-op"); continue; }
+			if (e < 0) { result("nowrite", "ret=0"); continue; }
+			xs->sync(0);
+			snprintf(ibuf, sizeof(ibuf), "ret=0 rounds=0 waiting=%zu", xs->waiting());
+			result("ok", ibuf);
+		}
 		else if ((!strcmp(op, "answer") || !strcmp(op, "sync")) && drv_nw == 3) {
 			int e = peer_send(drv_w[2], xs->_idlen);
 			if (e == -1) { puts("bad-op"); continue; }
